@@ -23,6 +23,12 @@ import numpy as np
 from .common import make_tree, random_sorted_table, scratch_dir, sorted_parent_tables
 
 COMMENT_POOL = ["", " ", "x", "  x ", "# x", "id type", "a b"]
+HEADER_COLS = "id type x y z r pid"
+# comments that look like what the writer itself puts on the page (its source header, its column header, its '#' marker, a data row)
+# and comments with inner / trailing blanks: generic "a file that was written by this library before" texts
+WRITER_LIKE = ["source: x", " source: /data/n 1.swc", "source:", "Source: x", HEADER_COLS, " " + HEADER_COLS + " e", HEADER_COLS + "x", "# " + HEADER_COLS,
+               "#", "##", "# source: y", "1 1 0.0000 0.0000 0.0000 1.0000 -1", "\tx\t", "x # y"]
+FULL_POOL = COMMENT_POOL + WRITER_LIKE
 OFFSETS = [0, 1, 2, 7, 10**6]
 READ_SRC = ["path", "text", "bytes"]
 WRITE_VIA = ["string", "file"]
@@ -30,7 +36,7 @@ TYPE_POOL = [0, 1, 2, 3, 4, 5, 6, 7, 11, 255]
 CORNERS_QUICK = [0.0, -0.0, 1e-5, -1e-5, 0.00005, -0.00005, 0.00015, 123456.789, -123456.789, 1.0, -2.5, 0.12345, 9999.99995, 16777216.0, 0.99996]
 CORNERS_THOROUGH = CORNERS_QUICK + [1e30, -1e30, 3.4028234e38, 1e-30, 33554432.5, 0.30000001]
 SOURCE_OPTS = [False, True, "custom.swc"]
-HEADER_COLS = "id type x y z r pid"
+HEADER_LIKE = "a-comment-that-starts-like-the-column-header-comes-back"  # known finding, reported under its own clause (see _charge_comments)
 
 
 # ---------------------------------------------------------------- reporting
@@ -251,11 +257,96 @@ def check_roundtrip(rep, spec, base):
     want_c = _expected_header(spec) + _expected_body(spec)
     got_c = [c.lstrip() for c in t2.comments]
     carrier = "parse_swc" if text_ok else "to_swc"  # the written text was as specified => the reader is responsible
+    _charge_comments(rep, carrier, spec, got_c, want_c)
+
+
+def _charge_comments(rep, carrier, spec, got_c, want_c):
+    """the comment clause of the property: the comments read back are exactly `want_c`, in order.  When the ONLY difference is that comments
+    starting like the writer's column header are missing, the failure is charged to the clause HEADER_LIKE (one defect, one clause), so
+    that every other comment failure keeps its own name."""
+    if got_c == want_c:
+        return
+    if got_c == [c for c in want_c if not c.startswith(HEADER_COLS)] and text_is_header_like(want_c):
+        rep.add("parse_swc", HEADER_LIKE, spec, got_c, want_c)
+        return
     if not _is_subsequence(want_c, got_c):
         rep.add(carrier, "comments-in-order", spec, got_c, want_c)
     extra_c = _multiset_extra(got_c, want_c)
     if extra_c:
         rep.add(carrier, "nothing-added-to-comments", spec, dict(read_back=got_c, added=extra_c), dict(read_back=want_c))
+    if _is_subsequence(want_c, got_c) and not extra_c:
+        rep.add(carrier, "comments-in-order", spec, got_c, want_c)  # same multiset, another order
+
+
+def text_is_header_like(comments):
+    return any(c.startswith(HEADER_COLS) for c in comments)
+
+
+# ---------------------------------------------------------------- histories: write, read, write again, read
+
+def check_history(rep, spec, base):
+    """spec: pid, type, xyz, r, comments, tree_source, steps = [dict(source, off, via, src, comments_flag), ...].
+    Generation g+1 is what Tree.from_swc reads from what generation g's tree wrote; after EVERY generation the property's right-hand side
+    is evaluated against the tree that was written in that generation (node count, parents, types, four-decimal floats, and the comments:
+    the optional source header of THIS export, then every comment the written tree carried, in order, leading blanks aside)."""
+    from swcgeom.core import Tree
+
+    pid = list(spec["pid"])
+    n = len(pid)
+    extra = dict(comments=list(spec["comments"]))
+    if spec.get("tree_source"):
+        extra["source"] = spec["tree_source"]
+    t = make_tree(pid, np.array(spec["xyz"], dtype=np.float64).reshape(n, 3), np.array(spec["r"], dtype=np.float64), list(spec["type"]), **extra)
+    fname = os.path.join(base, "hist.swc")
+    for g, st in enumerate(spec["steps"]):
+        gen = f"generation-{g + 1}"
+        carried = [c.lstrip() for c in t.comments] if st.get("comments_flag", True) else []
+        src_opt = st["source"]
+        head = [] if src_opt is False else [f"source: {src_opt if isinstance(src_opt, str) else (t.source or 'Unknown')}", ""]
+        want_c = head + carried
+        x32 = {k: np.array(t.get_ndata(k), copy=True) for k in ("x", "y", "z", "r")}
+        want_pid, want_t = [int(v) for v in t.pid()], [int(v) for v in t.type()]
+        kw = dict(source=src_opt, comments=st.get("comments_flag", True), id_offset=st["off"])
+        try:
+            if st["via"] == "file":
+                t.to_swc(fname, **kw)
+                with open(fname, "rb") as f:
+                    text = f.read().decode("utf-8")
+            else:
+                text = t.to_swc(**kw)
+            if st["src"] == "path":
+                if st["via"] != "file":
+                    with open(fname, "w", encoding="utf-8", newline="") as f:
+                        f.write(text)
+                t2 = Tree.from_swc(fname)
+            elif st["src"] == "text":
+                t2 = Tree.from_swc(io.StringIO(text))
+            else:
+                t2 = Tree.from_swc(io.BytesIO(text.encode("utf-8")))
+        except Exception as e:
+            msg = re.sub(r" at 0x[0-9a-fA-F]+", "", f"{type(e).__name__}: {e} (cause: {type(e.__cause__).__name__}: {e.__cause__})").replace(base, "<scratch>")
+            rep.add("Tree.from_swc", f"history/{gen}/operation-raises", spec, msg, "no exception")
+            return
+        if t2.number_of_nodes() != n:
+            rep.add("Tree.from_swc", f"history/{gen}/node-count", spec, t2.number_of_nodes(), n)
+            return
+        if [int(v) for v in t2.id()] != list(range(n)) or [int(v) for v in t2.pid()] != want_pid:
+            rep.add("Tree.from_swc", f"history/{gen}/parents", spec, dict(id=[int(v) for v in t2.id()], pid=[int(v) for v in t2.pid()]), dict(id=list(range(n)), pid=want_pid))
+        if [int(v) for v in t2.type()] != want_t:
+            rep.add("Tree.from_swc", f"history/{gen}/types", spec, [int(v) for v in t2.type()], want_t)
+        for k in ("x", "y", "z", "r"):
+            want = np.array([_fmt4(v) for v in x32[k]], dtype=np.float32)
+            if not np.array_equal(np.asarray(t2.get_ndata(k)), want):
+                rep.add("Tree.from_swc", f"history/{gen}/coordinates-4-decimals", spec, {k: [repr(float(v)) for v in t2.get_ndata(k)]}, {k: [repr(float(v)) for v in want]})
+                break
+        got_c = [c.lstrip() for c in t2.comments]
+        if got_c != want_c:
+            if got_c == [c for c in want_c if not c.startswith(HEADER_COLS)]:
+                rep.add("parse_swc", HEADER_LIKE, spec, got_c, want_c)
+                # the defect is known; continue the history with the tree as read
+            else:
+                rep.add("Tree.from_swc", f"history/{gen}/comments-are-the-source-header-of-this-export-then-every-comment-the-written-tree-carried", spec, got_c, want_c)
+        t = t2
 
 
 # ---------------------------------------------------------------- enumeration
@@ -338,6 +429,36 @@ def run(ctx):
                 go("comments", spec)
                 k += 1
 
+        # (3b) comments that look like the writer's own output (source header, column header, '#', a data row): all single comments and all
+        # pairs drawn from one writer-like and one arbitrary comment, every source-header setting
+        wl = [(c,) for c in WRITER_LIKE] + [p for a in WRITER_LIKE for b in COMMENT_POOL[:5] for p in ((a, b), (b, a))] + [(a, b) for a in WRITER_LIKE[:6] for b in WRITER_LIKE[:6]]
+        for cl in wl if thorough else wl[::2] + wl[1::6]:
+            for source in SOURCE_OPTS:
+                pid = small[k % 2]
+                n = len(pid)
+                xyz, r = _coords_for(n, k, [1.0, 2.5])
+                spec = dict(pid=list(pid), type=_types_for(n, k), xyz=xyz, r=r, off=OFFSETS[k % 5], via=WRITE_VIA[k % 2], src=READ_SRC[(k // 2) % 3],
+                            source=source, comments=list(cl), comments_flag=True, tree_source=("" if k % 3 else "orig.swc"))
+                go("writer-like-comments", spec)
+                k += 1
+
+        # (3c) histories: write -> read -> write again -> read [-> a third time], every source option at every generation, offsets / write
+        # routes / read sources rotating; the starting comments range over nothing, plain, and writer-like texts
+        starts = [[], ["x", "  y "], ["source: x"], [HEADER_COLS], ["", "# x", " source: /data/n 1.swc"]] + ([[c] for c in WRITER_LIKE] if thorough else [["#"], ["x # y", "\tx\t"]])
+        for cm in starts:
+            for s1 in SOURCE_OPTS:
+                for s2 in SOURCE_OPTS:
+                    for s3 in ((None,) if not thorough else (None, True, False)):
+                        pid = [(-1,), (-1, 0, 0), (-1, 0, 1, 1)][k % 3]
+                        n = len(pid)
+                        xyz, r = _coords_for(n, k, corners)
+                        steps = [dict(source=s, off=OFFSETS[(k + j) % 5], via=WRITE_VIA[(k + j) % 2], src=READ_SRC[(k // 2 + j) % 3], comments_flag=True)
+                                 for j, s in enumerate((s1, s2, s3)) if s is not None]
+                        spec = dict(pid=list(pid), type=_types_for(n, k), xyz=xyz, r=r, comments=list(cm), tree_source=("" if k % 2 else "first.swc"), steps=steps)
+                        check_history(rep, spec, base)
+                        ctx.case("histories", spec, nontrivial=True)
+                        k += 1
+
         # (4) float corner values: every corner in every float column, every read source
         for ci, c in enumerate(corners):
             for col in range(4):
@@ -365,7 +486,7 @@ def run(ctx):
             types = [1] + [rng.choice(TYPE_POOL) for _ in range(n - 1)]
             nc = rng.randint(0, 3)
             spec = dict(pid=list(pid), type=types, xyz=xyz, r=r, off=rng.choice(OFFSETS + [3, 100, 65536]), via=rng.choice(WRITE_VIA), src=rng.choice(READ_SRC),
-                        source=rng.choice(SOURCE_OPTS), comments=[rng.choice(COMMENT_POOL) for _ in range(nc)], comments_flag=rng.random() < 0.9,
+                        source=rng.choice(SOURCE_OPTS), comments=[rng.choice(FULL_POOL if rng.random() < 0.3 else COMMENT_POOL) for _ in range(nc)], comments_flag=rng.random() < 0.9,
                         tree_source=rng.choice(["", "a/b.swc"]))
             go("random", spec)
 
@@ -385,7 +506,9 @@ def run(ctx):
         rep.flush(ctx)
         ctx.rule(f"all sorted parent tables with <= {nmax} nodes x id offsets {OFFSETS} x read sources {READ_SRC} x write via to_swc() string / to_swc(fname) ("
                  f"source header False/True/custom, comments from {COMMENT_POOL!r}, types from {TYPE_POOL}); all unsorted numberings with root 0 up to "
-                 f"{5 if thorough else 4} nodes; all comment lists of length <= {3 if thorough else 2} x 3 source-header settings; every float corner value "
+                 f"{5 if thorough else 4} nodes; all comment lists of length <= {3 if thorough else 2} x 3 source-header settings; comments that look like the "
+                 f"writer's own output {WRITER_LIKE!r} alone and in pairs x 3 source-header settings; HISTORIES write -> read -> write again -> read with every "
+                 f"source option at both generations (a third generation in the thorough tier) from plain and writer-like starting comments; every float corner value "
                  f"{corners} in each of x/y/z/r x 3 read sources; seeded random tail (trees up to {12 if thorough else 9} nodes, magnitudes 1e-4..1e6). "
                  "Oracle: float32(float(format(v,'.4f'))), the parent table, the type list, [source header] + lstripped comments. Every case is non-trivial "
                  "(a full write + read).", exhaustive=False)
@@ -397,7 +520,7 @@ def replay(spec):
     rep = Reporter()
     base = scratch_dir("c01r")
     try:
-        check_roundtrip(rep, spec, base)
+        (check_history if "steps" in spec else check_roundtrip)(rep, spec, base)
     finally:
         shutil.rmtree(base, ignore_errors=True)
     for key, items in rep.items.items():
